@@ -425,3 +425,57 @@ func recvPrefix(name string) string {
 	}
 	return ""
 }
+
+
+// SMT symbol names are derived from source names (parameters, captured variables, named
+// locals). Solver heuristics are sensitive to symbol names, so a pure renaming in /repo could turn
+// a 5-second obligation into a time-out. When the function still has the recorded shape, the
+// names the contracts were written against are used for the symbols instead: the queries of a
+// renamed function are then textually the queries of the original.
+func baselineFor(fn *ssa.Function) (fnNames, bool) {
+	key := fn.String()
+	if b, ok := baselineNames[key]; ok {
+		return b, true
+	}
+	if o := fn.Origin(); o != nil {
+		b, ok := baselineNames[o.String()]
+		return b, ok
+	}
+	return fnNames{}, false
+}
+
+func smtParamHint(fn *ssa.Function, i int, cur string) string {
+	b, ok := baselineFor(fn)
+	if !ok || len(b.Params) != len(fn.Params) || i >= len(b.Params) || b.Params[i] == "" || b.Params[i] == "_" {
+		return cur
+	}
+	return b.Params[i]
+}
+
+func smtFreeVarHint(fn *ssa.Function, i int, cur string) string {
+	b, ok := baselineFor(fn)
+	if !ok || len(b.FreeVars) != len(fn.FreeVars) || i >= len(b.FreeVars) || b.FreeVars[i] == "" {
+		return cur
+	}
+	return b.FreeVars[i]
+}
+
+// smtLocalHints: named local -> recorded name, when the locals have the recorded shape.
+func smtLocalHints(fn *ssa.Function) map[*ssa.Alloc]string {
+	b, ok := baselineFor(fn)
+	if !ok {
+		return nil
+	}
+	allocs := namedAllocs(fn)
+	if len(allocs) != len(b.Locals) {
+		return nil
+	}
+	out := map[*ssa.Alloc]string{}
+	for i, a := range allocs {
+		if b.Locals[i].Type != types.TypeString(a.Type(), nil) {
+			return nil
+		}
+		out[a] = b.Locals[i].Name
+	}
+	return out
+}
